@@ -511,3 +511,85 @@ DECODE_CALL = Contract(
     note='decode() = first item of the streaming decoder; an underrun marker becomes SubstrateUnderrunError (C06), the '
          'rest of the input is handed back untouched (C07)')
 CONTRACTS = CONTRACTS + [DECODE_CALL]
+
+
+# ---- open types (ANY DEFINED BY): resolution by governing value, caller's map first (C18) --------------------------------
+def _ot_map(name, resolved):
+    """a mapping governing value -> type: finds `resolved` or raises KeyError"""
+    has = z3.Bool(name + '.has')
+
+    def getitem(ex, self, key):
+        if ex.choose(has, name + '-has'):
+            return resolved
+        raise _Raise(ExcV('KeyError'))
+    # (an OpenType object defines neither __len__ nor __bool__: it is truthy also when its map is empty; the caller's
+    # plain dict reaches the region only through `openTypes or decodeOpenTypes`, i.e. outside it)
+    return Obj('dict', {'__truthy__': True, 'name': 'governor'}, {'__getitem__': getitem}, name=name)
+
+
+CALLER_T = Obj('Asn1Type', {}, name='callerType')
+DEFAULT_T = Obj('Asn1Type', {}, name='defaultType')
+GOV_VALUE = Obj('Value', {'isValue': z3.Bool('governor.isValue')}, name='governingValue')
+RAW_BLOB = Obj('Any', {'typeId': 'any-type-id', 'isValue': True},
+               {'asOctets': lambda ex, self: SeqV(z3.Const('blob', S), 'bytes')}, name='rawBlob')
+
+
+def _ot_decode(ex, stream, asn1Spec=None, **options):
+    """assumed contract of decodeFun on the captured octets: returns a value of the guiding type (or raises)"""
+    if ex.choose(ex.fresh('inner.raises', BoolSort()), 'inner-raises'):
+        raise _Raise(ExcV('PyAsn1Error'))
+    return Obj('Decoded', {'of': asn1Spec}, name='decodedInner')
+
+
+_ot_decode.is_generator_model = True
+
+
+def _ot_record(ex, env):
+    slots = {'blob': RAW_BLOB}
+
+    def by_pos(ex2, self, idx, *a, **k):
+        return {0: GOV_VALUE, 1: slots['blob']}[concrete(idx)]
+
+    def by_name(ex2, self, name, *a, **k):
+        return GOV_VALUE
+
+    def set_pos(ex2, self, idx, value, *a, **k):
+        assert concrete(idx) == 1
+        slots['blob'] = value
+        self.fields['blob'] = value
+    return Obj('Sequence', {'blob': RAW_BLOB}, {'getComponentByPosition': by_pos, 'getComponentByName': by_name,
+                                               'setComponentByPosition': set_pos}, name='asn1Object')
+
+
+def _ot_named_types(ex, env):
+    gov = Obj('NamedType', {'openType': None, 'isOptional': False, 'name': 'governor'}, name='namedType0')
+    blob = Obj('NamedType', {'openType': _ot_map('defaultMap', DEFAULT_T), 'isOptional': False, 'name': 'blob'},
+               name='namedType1')
+    return Obj('NamedTypes', {'namedTypes': Tup([gov, blob]), 'hasOpenTypes': True}, name='namedTypes')
+
+
+OPEN_TYPES = Contract(
+    id='ber.decoder::ConstructedPayloadDecoderBase.valueDecoder@open-types', file=F,
+    qual='ConstructedPayloadDecoderBase.valueDecoder', region="openTypes or options.get('decodeOpenTypes', False)",
+    is_generator=True, properties=['C18'],
+    params=dict(self=PObj('ConstructedPayloadDecoderBase'), namedTypes=PDerived(_ot_named_types),
+                asn1Object=PDerived(_ot_record),
+                openTypes=PConst(_ot_map('callerMap', CALLER_T)), options=POptions(decodeOpenTypes=PBool())),
+    globals={'univ': {'SetOf': {'typeId': 'setof-type-id'}, 'SequenceOf': {'typeId': 'seqof-type-id'}, '__name__': 'univ'},
+             'asSeekableStream': FnV(lambda ex, octets: Obj('Stream', {'octets': octets}, name='innerStream'), 'asSeekableStream'),
+             'callerHas': z3.Bool('callerMap.has'), 'defaultHas': z3.Bool('defaultMap.has'), 'govSet': z3.Bool('governor.isValue'),
+             'callerType': CALLER_T, 'defaultType': DEFAULT_T, 'rawBlob': RAW_BLOB},
+    calls={'decodeFun': _ot_decode},
+    loops={0: Loop(unroll=True), 1: Loop(unroll=True)},
+    exit_ensures=[
+        ('caller-map-wins', '(govSet and callerHas) ==> asn1Object.blob.of is callerType'),
+        ('default-map-otherwise', '(govSet and not callerHas and defaultHas) ==> asn1Object.blob.of is defaultType'),
+        ('unresolved-stays-raw', '(not govSet or (not callerHas and not defaultHas)) ==> asn1Object.blob is rawBlob')],
+    may_raise={'PyAsn1Error': True},
+    note='the governing value is looked up in the caller\'s openTypes map first, then in the map declared with the '
+         'type; an unresolved value leaves the captured octets in place')
+import copy as _copy
+OPEN_TYPES_INDEF = _copy.copy(OPEN_TYPES)
+OPEN_TYPES_INDEF.id = 'ber.decoder::ConstructedPayloadDecoderBase.indefLenValueDecoder@open-types'
+OPEN_TYPES_INDEF.qual = 'ConstructedPayloadDecoderBase.indefLenValueDecoder'
+CONTRACTS = CONTRACTS + [OPEN_TYPES, OPEN_TYPES_INDEF]
